@@ -404,6 +404,7 @@ func pipeline(reps int, dump string) {
 	}
 	redundantEdgesPart(reps)
 	disasmPart(reps)
+	mergeRepeatPart(reps)
 	// fetch completion order: three sources finishing in opposite orders
 	delays := [][]time.Duration{{0, 15 * time.Millisecond, 30 * time.Millisecond}, {30 * time.Millisecond, 15 * time.Millisecond, 0}}
 	for _, f := range [][]string{{"-proto"}, {"-raw"}, {"-top"}} {
@@ -426,6 +427,64 @@ func pipeline(reps int, dump string) {
 		}
 		if len(outs) == 2 && !bytes.Equal(outs[0], outs[1]) {
 			run.Violate("fetch-order", "fetch-completion-order:"+strings.TrimLeft(f[0], "-"), fmt.Sprintf("%v output depends on which fetch completes first:\n%s\nvs\n%s", f, clip(outs[0]), clip(outs[1])), nil, nil)
+		}
+	}
+}
+
+// merging is where samples meet: the same (stack, labels) several times within a source and across sources, with
+// every number of string and numeric label keys from 0 to 4 (the keys of the maps the merge key is built from),
+// several comments per source; the combined outputs must be byte-identical run after run
+func mergeRepeatPart(reps int) {
+	m := vlib.AMap{Build: "B01", File: "bin1", Start: 16, Size: 8}
+	loc := func(name string, rel int64) vlib.ALoc {
+		return vlib.ALoc{Map: m, Rel: rel, Lines: []vlib.ALine{{Fn: fn(name, name+".c"), Line: 1}}}
+	}
+	skeys := []string{"zone", "app", "tag", "user"}
+	nkeys := []string{"bytes", "align", "request", "latency"}
+	mk := func(which int) vlib.AProf {
+		var ss []vlib.ASample
+		for ns := 0; ns <= 4; ns++ {
+			for nn := 0; nn <= 4; nn += 2 {
+				s := vlib.ASample{Vals: []int64{int64(1 + ns + which), int64(10 * (1 + nn))}, Locs: []vlib.ALoc{loc("leaf", int64(1+ns)), loc("root", 7)},
+					Lab: []vlib.ASLab{}, Num: []vlib.ANLab{}}
+				for k := 0; k < ns; k++ {
+					s.Lab = append(s.Lab, vlib.ASLab{K: skeys[k], V: []string{fmt.Sprintf("v%d", k)}})
+				}
+				for k := 0; k < nn; k++ {
+					s.Num = append(s.Num, vlib.ANLab{K: nkeys[k], V: []int64{int64(8 + k)}, U: []string{"bytes"}})
+				}
+				ss = append(ss, s, s) // twice within the source
+			}
+		}
+		return vlib.AProf{ST: []vlib.AVT{{T: "samples", U: "count"}, {T: "cpu", U: "nanoseconds"}}, Samples: ss,
+			Hdr: vlib.AHdr{Comments: []string{fmt.Sprintf("first of %d", which), "shared remark", fmt.Sprintf("last of %d", which)}}}
+	}
+	conc := vlib.NewConc(0)
+	p0, p1 := conc.Profile(mk(0)), conc.Profile(mk(1))
+	for _, srcs := range [][]string{{"s0"}, {"s0", "s1"}, {"-base=s1", "s0"}, {"-diff_base=s1", "s0"}} {
+		for _, f := range [][]string{{"-proto"}, {"-raw"}, {"-traces"}, {"-tags"}, {"-top"}, {"-comments"}} {
+			var first []byte
+			for k := 0; k < reps*3; k++ {
+				args := append(append([]string{"-functions", "-flat"}, f...), "-nodecount=0", "-output=out")
+				args = append(args, srcs...)
+				res := vdrv.Run(vdrv.Opts{Args: args, Fetch: func(src string) (*profile.Profile, error) {
+					if src == "s1" {
+						return p1.Copy(), nil
+					}
+					return p0.Copy(), nil
+				}})
+				if res.Err != nil || res.Panic != nil {
+					run.Violate("merge-repeat", "merge-repeat-error:"+f[0], fmt.Sprint(res.Err, res.Panic), nil, nil)
+					break
+				}
+				run.Count("mergerepeat" + f[0] + strings.Join(srcs, ","))
+				if first == nil {
+					first = res.Files["out"]
+				} else if !bytes.Equal(first, res.Files["out"]) {
+					run.Violate("merge-repeat", "nondeterministic-merge:"+strings.TrimLeft(f[0], "-"), fmt.Sprintf("run %d of %v %v differs from run 0:\n%s\nvs\n%s", k, f, srcs, clip(first), clip(res.Files["out"])), nil, nil)
+					break
+				}
+			}
 		}
 	}
 }
